@@ -29,6 +29,16 @@ def one(name):
         if s == 1 and line:
             meta["checks"].setdefault(pid, {})["verdict"] = res["1"] if res["1"] != "missed" else "quiet"
             meta["checks"][pid]["buckets"] = [line[0][:400]]
+    if meta.get("at_head") and not meta["at_head"].get("still_violates", True):
+        meta["seed_sweep_note"] = "at the current HEAD this change no longer violates the property (neutralised by a later fix: commit); verdicts below are informational"
+    if any(v == "missed" for v in res.values()) and pid != "C09" and meta.get("at_head", {}).get("still_violates", True):
+        # a violation that lives in process history may be out of reach of a single-shot property check: ask the history check
+        alt = {}
+        for s in SEEDS:
+            env = dict(os.environ, VERIF_SEED=str(s))
+            p = subprocess.run([os.path.join(HERE, "tools", "try_patch.sh"), os.path.join(d, "patch.diff"), "C09"], capture_output=True, text=True, env=env)
+            alt[str(s)] = "caught" if "C09: CAUGHT" in p.stdout else "missed"
+        meta["seed_sweep_C09"] = " ".join("%s:%s" % (k, v) for k, v in alt.items())
     meta["seed_sweep"] = " ".join("%s:%s" % (k, v) for k, v in res.items())
     json.dump(meta, open(os.path.join(d, "meta.json"), "w"), indent=1)
     return name, meta["seed_sweep"]
